@@ -2,8 +2,9 @@
    exactly once.  Property theorems only. *)
 From KC Require Import Pipeline PipelineProps.
 
-(* one publisher, any number of subscriptions created at any points of the
-   stream, every sequence of publications, subscriptions and reads *)
+(* one publisher, any number of subscriptions created (and closed) at any
+   points of the stream, every sequence of publications, subscriptions, reads
+   and closes *)
 Theorem C05_edge_invariant : forall (E : Type) (l : list (pact E)), pub_inv E (prun l).
 Proof. exact edge_invariant. Qed.
 Print Assumptions C05_edge_invariant.
@@ -12,10 +13,31 @@ Print Assumptions C05_edge_invariant.
    received / still holds exactly the events published after its creation,
    in publication order: no duplicate, omission or reordering *)
 Theorem C05_subscriber_sees_exact_suffix : forall (E : Type) (l : list (pact E)) (s : sub E),
-  In s (p_subs (prun l)) -> s_drops s = 0 ->
+  In s (p_subs (prun l)) -> s_drops s = 0 -> s_closed s = None ->
   s_passed s ++ s_queue s = expected_suffix (s_from s) (p_seen (prun l)).
-Proof. exact subscriber_sees_exact_suffix. Qed.
+Proof. exact open_subscriber_sees_exact_suffix. Qed.
 Print Assumptions C05_subscriber_sees_exact_suffix.
+
+(* a subscription that was closed: exactly the events published between its
+   creation and its close *)
+Theorem C05_closed_subscriber_saw_exact_stretch : forall (E : Type) (l : list (pact E)) (s : sub E),
+  In s (p_subs (prun l)) -> s_drops s = 0 ->
+  s_passed s ++ s_queue s = expected_suffix (s_from s) (visible E (p_seen (prun l)) s).
+Proof. exact subscriber_sees_exact_suffix. Qed.
+Print Assumptions C05_closed_subscriber_saw_exact_stretch.
+
+(* closing one subscription changes nothing for its siblings; the fan-out of
+   later events goes past it (sending to it is a no-op) and still reaches every
+   open subscription *)
+Theorem C05_close_is_local : forall (E : Type) (p : pub E) (i j : nat) (d : sub E), i <> j ->
+  nth j (p_subs (pclose i p)) d = nth j (p_subs p) d.
+Proof. exact close_is_local. Qed.
+Print Assumptions C05_close_is_local.
+
+Theorem C05_publish_to_closed_is_noop : forall (E : Type) (e : E) (s : sub E) (k : nat),
+  s_closed s = Some k -> push e s = s.
+Proof. exact publish_to_closed_is_noop. Qed.
+Print Assumptions C05_publish_to_closed_is_noop.
 
 (* through clones of any depth: received ++ in flight = a suffix of what the
    root published; hence any two subscribers see subsequences of one sequence *)
